@@ -427,6 +427,7 @@ type replayInput struct {
 	Gaps  []int  `json:"gaps"`
 	Label string `json:"label"`
 	Execs int    `json:"execs"` // > 0: bind the executors on every Execs-th descriptor (C02)
+	Steps string `json:"steps"` // the steps of the universe's state graph (TestSteps)
 }
 
 func TestReplay(t *testing.T) {
